@@ -217,6 +217,12 @@ func (rl *RateLimiter) reload(previousGeneration *RateLimiter) {
 		return
 	}
 
+	// The limiter of an unchanged rule is shared with the previous generation
+	// instead of being taken away from it: requests which still hold the
+	// previous generation keep working (and keep counting against the same
+	// permits) until they are done.
+	taken := make(map[*URLRule]bool)
+
 OuterLoop:
 	for _, url := range rl.spec.URLs {
 		for _, prev := range previousGeneration.spec.URLs {
@@ -226,7 +232,7 @@ OuterLoop:
 			if !isSamePolicy(rl.spec, previousGeneration.spec, url.PolicyRef) {
 				continue
 			}
-			if prev.rl == nil {
+			if prev.rl == nil || taken[prev] {
 				// already handed over to an identical rule of this generation
 				continue
 			}
@@ -234,7 +240,7 @@ OuterLoop:
 			url.Init()
 			rl.bindPolicyToURL(url)
 			url.rl = prev.rl
-			prev.rl = nil
+			taken[prev] = true
 			rl.setStateListenerForURL(url)
 			continue OuterLoop
 		}
